@@ -8,6 +8,7 @@ import (
 	"sort"
 	"strings"
 	"sync"
+	"unicode"
 
 	"github.com/arr-ai/frozen"
 	"github.com/arr-ai/wbnf/parser"
@@ -42,25 +43,12 @@ func (b *TupleBuilder) Put(name string, value Value) {
 func (b *TupleBuilder) Finish() Tuple {
 	m := (*frozen.MapBuilder[string, Value])(b).Finish()
 	if index, has := m.Get("@"); has && m.Count() == 2 {
-		i := index
-		switch {
-		case m.Has(StringCharAttr):
-			return NewStringCharTuple(
-				int(i.(Number).Float64()),
-				rune(m.MustGet(StringCharAttr).(Number).Float64()),
-			)
-		case m.Has(BytesByteAttr):
-			return NewBytesByteTuple(
-				int(i.(Number).Float64()),
-				byte(m.MustGet(BytesByteAttr).(Number).Float64()),
-			)
-		case m.Has(ArrayItemAttr):
-			return NewArrayItemTuple(
-				int(i.(Number).Float64()),
-				m.MustGet(ArrayItemAttr),
-			)
-		case m.Has(DictValueAttr):
-			return NewDictEntryTuple(i, m.MustGet(DictValueAttr))
+		for _, name := range []string{StringCharAttr, BytesByteAttr, ArrayItemAttr, DictValueAttr} {
+			if v, has := m.Get(name); has {
+				if t, ok := newSugarTuple(index, name, v); ok {
+					return t
+				}
+			}
 		}
 	}
 	return &GenericTuple{tuple: m}
@@ -108,25 +96,43 @@ func NewTuple(attrs ...Attr) Tuple {
 			attrs[0], attrs[1] = attrs[1], attrs[0]
 		}
 		if attrs[0].Name == "@" && strings.HasPrefix(attrs[1].Name, "@") {
-			switch attrs[1].Name {
-			case StringCharAttr:
-				return NewStringCharTuple(
-					int(attrs[0].Value.(Number).Float64()),
-					rune(attrs[1].Value.(Number).Float64()),
-				)
-			case BytesByteAttr:
-				return NewBytesByteTuple(
-					int(attrs[0].Value.(Number).Float64()),
-					byte(attrs[1].Value.(Number).Float64()),
-				)
-			case ArrayItemAttr:
-				return NewArrayItemTuple(int(attrs[0].Value.(Number).Float64()), attrs[1].Value)
-			case DictValueAttr:
-				return NewDictEntryTuple(attrs[0].Value, attrs[1].Value)
+			if t, ok := newSugarTuple(attrs[0].Value, attrs[1].Name, attrs[1].Value); ok {
+				return t
 			}
 		}
 	}
 	return newTuple(attrs...)
+}
+
+// newSugarTuple returns the specialised tuple for (@: at, <name>: v) when that representation can
+// hold the two numbers exactly. A non-integer index, a char that is not a rune or a byte out of
+// range is left to the generic tuple instead of being truncated. (Non-numbers where a number is
+// required still panic, as before.)
+func newSugarTuple(at Value, name string, v Value) (Tuple, bool) {
+	intOf := func(v Value) (int, bool) {
+		return v.(Number).Int()
+	}
+	switch name {
+	case StringCharAttr:
+		if i, ok := intOf(at); ok {
+			if c, ok := intOf(v); ok && 0 <= c && c <= unicode.MaxRune {
+				return NewStringCharTuple(i, rune(c)), true
+			}
+		}
+	case BytesByteAttr:
+		if i, ok := intOf(at); ok {
+			if b, ok := intOf(v); ok && 0 <= b && b <= 0xff {
+				return NewBytesByteTuple(i, byte(b)), true
+			}
+		}
+	case ArrayItemAttr:
+		if i, ok := intOf(at); ok {
+			return NewArrayItemTuple(i, v), true
+		}
+	case DictValueAttr:
+		return NewDictEntryTuple(at, v), true
+	}
+	return nil, false
 }
 
 func newTuple(attrs ...Attr) Tuple {
